@@ -128,8 +128,23 @@ func genC01(r *rand.Rand, idx int, tier string) *SolveCase {
 	}
 	fams := []string{"cnf", "cnf3", "cnf3", "unitrich", "cnf3big", "pigeon", "parity", "cnf", "chain"}
 	fam := fams[r.Intn(len(fams))]
+	if r.Intn(800) == 0 {
+		fam = "unitpairs"
+	}
 	var p *Prob
 	switch fam {
+	case "unitpairs":
+		// thousands of conflicts that each teach a unit: the learned-clause database is still empty (or nearly) when its first
+		// reduction comes, after 2000 conflicts (defect F43: index out of range in reduceLearned)
+		n := 4000 + r.Intn(3000)
+		cons := make([]Con, 0, 2*n+4)
+		for i := 1; i <= n; i++ {
+			cons = append(cons, Con{Kind: "clause", Lits: []int{2*i - 1, 2 * i}}, Con{Kind: "clause", Lits: []int{2*i - 1, -2 * i}})
+		}
+		for i := r.Intn(3); i > 0; i-- { // a few longer clauses so that some learned clauses are stored
+			cons = append(cons, Con{Kind: "clause", Lits: genClause(r, 2*n, 3, 3, 0, 0)})
+		}
+		p = &Prob{Front: "slice", Cons: cons, Class: "unitpairs"}
 	case "chain":
 		p = &Prob{Front: "slice", Cons: implicationChains(r), Class: "chain"}
 	case "cnf3big":
